@@ -230,6 +230,11 @@ func runC07(c *core.Ctx) {
 		}
 		bounds = append(bounds, fmt.Sprintf("%d builtins/extensions (restricted IO configuration) x every value in argument positions 1 and 2, third position from a 6-value subset", len(fns)))
 	}
+	// 3b. nested counted loops with every way of leaving them (register allocation / release paths)
+	if ok {
+		ok = c05LoopPrograms(false, func(fam, src string) bool { return do("loops", "", src) })
+		bounds = append(bounds, "nested counted loops to depth 3 (all variable-name / form / exit-kind combinations of C05's loop family) and depth 4..10")
+	}
 	// 4. wild syntax: every G-syn tree evaluated with a, b bound to values of different kinds
 	if ok {
 		full := gen.FullCfg()
@@ -298,7 +303,7 @@ func init() {
 			if cs.Kind == "wild" {
 				pre = cs.Cfg
 			}
-			if cs.Kind == "mut" {
+			if cs.Kind == "mut" || cs.Kind == "loops" {
 				pre = ""
 			}
 			return c07One(cs.Kind, pre, cs.Data)
